@@ -43,6 +43,11 @@ structure Seg (α : Type) where
   id : Nat
   docs : List (SDoc α)
   cursor : Nat
+  /-- `SegmentMeta::delete_opstamp()`: the target of the last `advance_deletes` that found new
+  deletes (`None` for a segment that never had a delete file) -/
+  delOp : Option Nat := none
+  /-- `SegmentMeta::num_deleted_docs()`: the deletes recorded in the delete file -/
+  metaDead : Nat := 0
 
 /-- one indexing worker: its own delete cursor and the segment it is building, if any -/
 structure Worker (α : Type) where
@@ -165,10 +170,22 @@ def maxOp (docs : List (SDoc α)) : Nat := docs.foldl (fun m d => max m d.op) 0
 the flushed part -/
 def flushAt (s : WState α) (c : Nat) : Nat := if s.flushed ≤ c then s.log.length else s.flushed
 
-/-- `advance_deletes(segment, entry, target)` -/
+/-- the core of `advance_deletes(segment, entry, target)`: `compute_deleted_bitset` from the
+entry's cursor, without per-document opstamps -/
 def advance (log : List (DelOp α)) (target : Nat) (sg : Seg α) : Seg α :=
   let r := consume false target (log.drop sg.cursor) sg.docs sg.cursor
   { sg with docs := r.1, cursor := r.2 }
+
+def deadCount (docs : List (SDoc α)) : Nat := (docs.filter (fun d => !d.alive)).length
+
+/-- `advance_deletes(segment, entry, target)` with its bookkeeping: "We are already up-to-date
+here" when the delete file of the segment was written for this very target (then NOTHING happens:
+the cursor stays); otherwise the core, and if there are more deleted documents than the delete
+file records, a new delete file for `target` -/
+def advanceDeletes (log : List (DelOp α)) (target : Nat) (sg : Seg α) : Seg α :=
+  if sg.delOp = some target then sg else
+  let a := advance log target sg
+  if deadCount a.docs > sg.metaDead then { a with delOp := some target, metaDead := deadCount a.docs } else a
 
 /-- `apply_deletes` at the end of `index_documents` -/
 def finalize (log : List (DelOp α)) (sg : Seg α) : Seg α :=
@@ -186,7 +203,7 @@ def hasAlive (sg : Seg α) : Bool := sg.docs.any (·.alive)
 matter (a dead document never comes back: `advance_deletes` intersects with the stored bitset),
 fresh cursor on the new, empty queue -/
 def reload (sg : Seg α) : Seg α :=
-  { sg with docs := sg.docs.filter (·.alive), cursor := 0 }
+  { sg with docs := sg.docs.filter (·.alive), cursor := 0, metaDead := 0 }
 
 def quiescent (s : WState α) : Bool :=
   s.channel.isEmpty && s.workers.all (fun w => w.seg.isNone) && s.inflight.isEmpty
